@@ -70,6 +70,9 @@ def plan(tier, seed):
         # project-wide references, rename and project search across hash seeds
         specs.append({'id': 'c16j-%d' % i, 'mode': 'proc', 'kind': 'project',
                       'users': [6, 34, 47, 33, 12, 60][i % 6], 'seed': '%s/C16/j%d' % (seed, i)})
+    specs.append({'id': 'c16w-union-dup', 'mode': 'proc', 'kind': 'file', 'seed': 'w',
+                  'text': 'import re\nm = re.match("a", "b")\nm.\n', 'positions': [[3, 2]], 'npos': 1,
+                  'methods': ['complete'], 'hashseeds': [str(x) for x in range(8)]})
     specs.append({'id': 'c16w-import-dup', 'mode': 'proc', 'kind': 'file', 'seed': 'w',
                   'text': WITNESS_TEXT, 'positions': [[1, 27], [1, 22]], 'npos': 2,
                   'methods': ['complete'], 'hashseeds': [str(x) for x in range(8)]})
@@ -171,6 +174,10 @@ def run_proc(spec):
             diff = _first_diff(good, qi)
             if q[0].startswith('complete') and _is_stub_source_duplicate(good, qi):
                 key = 'c16:import_completion_stub_vs_source'
+            elif q[0].startswith('complete') and all(
+                    g[qi].get('ok') == good[0][qi].get('ok') or
+                    _same_names_other_definitions(good[0][qi].get('ok'), g[qi].get('ok')) for g in good[1:]):
+                key = UNION_KEY
             rec.violate(key, 'query %s at %s:%s answered differently by processes with different '
                         'hash seed / allocation history: %s' % (q[0], q[1], q[2], diff),
                         case=spec['id'], query=q, text=text[:6000])
@@ -179,6 +186,24 @@ def run_proc(spec):
     res['sample'] = {'case': spec['id'], 'mode': 'proc', 'queries': len(queries),
                      'processes': len(good), 'nonempty': nonempty, 'positions': pos[:3]}
     return res
+
+
+UNION_KEY = 'c16:same_named_attribute_of_union_receiver:survivor_depends_on_addresses'
+
+
+def _same_names_other_definitions(a, b):
+    """Mechanism of the listed finding: two completion lists with the same names in the same order
+    that differ only in WHICH definition stands for a name (after `x.` where x may be one of several
+    values, e.g. Optional[Match]: the attributes of all values are collected from a set ordered by
+    object address and the first definition of each name is kept)."""
+    if not isinstance(a, list) or not isinstance(b, list) or len(a) != len(b) or a == b:
+        return False
+    for x, y in zip(a, b):
+        if not isinstance(x, dict) or not isinstance(y, dict):
+            return False
+        if x.get('name') != y.get('name') or x.get('complete') != y.get('complete'):
+            return False
+    return True
 
 
 def _str_diff(a, b):
@@ -380,6 +405,7 @@ def run_repeat(spec):
     # Script object on a path of its own holding the same text), so that an answer which is
     # already bent by the queries asked before it on the main Script is noticed too.
     first = {}
+    first_raw = {}
     nonempty = 0
     for qi, q in enumerate(pool):
         # (a directory of its own beside the case directory, never inside it: file-name
@@ -390,6 +416,7 @@ def run_repeat(spec):
         ans = norm.run_query(fs, q[0], q[1], q[2], [('<case>', fdir)])
         fs = None
         first[q] = norm.canon(q[0], ans.get('ok')) if 'ok' in ans else json.dumps(ans)
+        first_raw[q] = ans.get('ok')
         if ans.get('ok'):
             nonempty += 1
         rec.ev('c16:fresh_script_references')
@@ -427,7 +454,10 @@ def run_repeat(spec):
         rec.ev('c16:repeat_comparisons')
         if key != first[q]:
             exc_side = str(first[q]).startswith('{"exc"') or str(key).startswith('{"exc"')
-            rec.violate('c16:repeat_after_aborted_query' if aborted else
+            union = q[0].startswith('complete') and _same_names_other_definitions(
+                first_raw.get(q), ans.get('ok'))
+            rec.violate(UNION_KEY if union else
+                        'c16:repeat_after_aborted_query' if aborted else
                         'c16:repeat:query_that_raises_an_internal_exception' if exc_side else
                         'c16:repeat:budget_exhausting_query_after_another' if exhausting and q in exhausting
                         else 'c16:repeat:' + q[0], 'query %s at %s:%s answered differently after other queries on '
